@@ -594,6 +594,9 @@ func (p *Parser) parseGroupBy(selStmt *SelectStmt, ctx *CheckCtx) (*GroupByStmt,
 			if err := f.Expr.Check(ctx); err != nil {
 				return nil, err
 			}
+			if err := checkAggrPlacement(f.Expr, false); err != nil {
+				return nil, err
+			}
 		}
 	}
 	ret.Fields = fields
@@ -973,6 +976,10 @@ func (p *Parser) Parse() (Statement, error) {
 
 	// Check syntax
 	err = expr.Check(checkCtx)
+	if err != nil {
+		return nil, err
+	}
+	err = checkAggrPlacement(expr, false)
 	if err != nil {
 		return nil, err
 	}
